@@ -147,6 +147,22 @@ def run(c, case, observe):
             return False
         if guard("len", len, obj) != len(b):
             out.append((f"len_differs|{label}", f"{when}: len {len(obj)} bytes {len(b)}"))
+        # as a SIZE_DELIMITED frame followed by another one: the prefix is the size NOW, the frame reads back alone
+        from io import BytesIO
+
+        import betterproto
+
+        from .. import wire
+
+        s_ = BytesIO()
+        guard("dump_delimited", obj.dump, s_, betterproto.SIZE_DELIMITED)
+        if s_.getvalue() != wire.enc_varint(len(b)) + b:
+            out.append((f"delimited_frame_differs|{label}", f"{when}: frame {s_.getvalue().hex()[:80]} for bytes {b.hex()[:80]}"))
+        else:
+            s2 = BytesIO(s_.getvalue() + b"\x08\x01")
+            back = guard("load_delimited", type(obj)().load, s2, betterproto.SIZE_DELIMITED)
+            if guard("bytes_back", bytes, back) != b or s2.tell() != len(s_.getvalue()):
+                out.append((f"delimited_frame_reads_back_differently|{label}", f"{when}: object {i}"))
         twin = adapter.build(cls, mi, model)
         if guard("eq_twin", lambda: obj == twin) is not True or guard("eq_twin2", lambda: twin == obj) is not True:
             # (a twin built by the constructor carries presence flags the in-place history does not: compare content)
